@@ -403,9 +403,10 @@ def addFeatures (src : Layer) : List Feature → Layer → Outcome Layer
 
 def addFromLayer (tgt src : Layer) : Outcome Layer := addFeatures src src.features tgt
 
-/-- `layers.get_mut(name)` / `layers.insert(name, layer)`; the `HashMap<String, Layer>` is an
-    association list in order of first insertion (the real iteration order is unspecified; every
-    observation of it is sorted by name first) -/
+/-- `layers.get_mut(name)` / `layers.insert(name, layer)`; the map `String → Layer` is an association
+    list in order of first insertion.  Since /repo d0cb5799 the real map is a `BTreeMap`, i.e. the
+    output order is "sorted by name": `handleMerge` prints `sortByName` of the result and the harness
+    compares it with the real, unsorted output. -/
 def mergeLayer : List Layer → Layer → Outcome (List Layer)
   | [], nl => .ok [nl]
   | l :: t, nl =>
